@@ -245,6 +245,36 @@ func implGz(run *hx.Run, b []byte, alsoRead bool, op string) result {
 	return res2
 }
 
+// emitWrite ties archive.go write to the model's writeStream: the members the real write
+// produced (scanning pass) against the members the model says it produces from the encoder
+// output (computed here, independently of the archive), metadata.Size and the state reader.
+func emitWrite(run *hx.Run, md *raft.SnapshotMeta, snap []byte) {
+	var enc bytes.Buffer
+	if err := json.NewEncoder(&enc).Encode(md); err != nil {
+		panic(err)
+	}
+	var buf bytes.Buffer
+	err := snapshot.VerifWrite(&buf, md, plain{bytes.NewReader(snap)})
+	out, swap := "short-snap", false
+	if err == nil {
+		sv := scan(bytes.NewReader(buf.Bytes()))
+		out = encMembers(sv.ms) + "/" + sv.end
+		if n := len(sv.ms); n > 0 {
+			first, _, _ := bytes.Cut(sv.ms[n-1].data, []byte("\n"))
+			swap = bytes.HasSuffix(first, []byte("state.bin"))
+		}
+		run.Tag(fmt.Sprintf("write:ok:sums-state-line-first=%v", swap))
+	} else {
+		run.Tag("write:error")
+		if int64(len(snap)) >= md.Size {
+			run.Violate("write:fails-although-enough-state", fmt.Sprintf("write failed with %v for Size=%d and %d bytes", err, md.Size, len(snap)), nil)
+		}
+	}
+	op := fmt.Sprintf("write %s %d %s %s", hx.EncB(enc.Bytes()), md.Size, hx.EncB(snap), hx.EncBool(swap))
+	run.Line(op, out)
+	run.Case(op, true)
+}
+
 func mkArchive(md *raft.SnapshotMeta, state []byte) []byte {
 	var buf bytes.Buffer
 	if err := snapshot.VerifWrite(&buf, md, bytes.NewReader(state)); err != nil {
@@ -394,6 +424,7 @@ type base struct {
 	regs  []region
 	res   result
 	tag   string
+	orcTok string // oracle of the untouched archive
 }
 
 // mkBase writes a valid archive with the real code, checks the round trip (monitor) and
@@ -401,12 +432,14 @@ type base struct {
 func mkBase(run *hx.Run, md *raft.SnapshotMeta, state []byte, tag string) *base {
 	b := &base{md: md, cmeta: canon(md), state: state, tag: tag}
 	b.tarB = mkArchive(md, state)
+	emitWrite(run, md, state)
 	b.s = scan(bytes.NewReader(b.tarB))
+	b.orcTok = oracle(b.s.ms)
 	b.regs = observeLayout(b.tarB)
 	b.res = implRead(b.tarB)
 	opRead := fmt.Sprintf("read %s %s %s", encMembers(b.s.ms), b.s.end, oracle(b.s.ms))
 	run.Line(opRead, b.res.String())
-	run.Line("base "+encMembers(b.s.ms), fmt.Sprintf("ok n=%d total=%d", len(b.s.ms), len(b.tarB)))
+	b.register(run)
 	run.Line("layout", layoutStr(b.regs))
 	// monitor: exact round trip
 	if !b.res.ok {
@@ -447,20 +480,55 @@ func (b *base) lastDataEnd() int {
 	return e
 }
 
+// sink is what a monitor reports into: the run itself, or a worker-local buffer that is merged
+// into the run afterwards (hx.Run is not safe for concurrent use).
+type sink interface {
+	Tag(string)
+	Violate(sig, desc string, replay []string)
+}
+
+type localSink struct {
+	tags  map[string]int
+	viols []hx.Violation
+}
+
+func (l *localSink) Tag(t string) { l.tags[t]++ }
+func (l *localSink) Violate(sig, desc string, replay []string) {
+	l.tags["violation:"+sig]++
+	if len(l.viols) < 50 {
+		l.viols = append(l.viols, hx.Violation{Sig: sig, Desc: desc, Replay: replay})
+	}
+}
+
+func (l *localSink) mergeInto(run *hx.Run) {
+	for _, v := range l.viols {
+		run.Violate(v.Sig, v.Desc, v.Replay)
+		l.tags["violation:"+v.Sig]--
+	}
+	for t, n := range l.tags {
+		run.Hist[t] += n
+	}
+}
+
 // checkDamaged is the monitor shared by all damaged-archive cases.
 //   mustReject: the property demands rejection for this kind of damage.
-func checkDamaged(run *hx.Run, b *base, kind string, mustReject bool, res result, op string) {
+func checkDamaged(run sink, b *base, kind string, mustReject bool, res result, ops ...string) {
 	if res.ok {
+		same := true
 		if mustReject {
-			run.Violate(kind+":damaged-archive-accepted", fmt.Sprintf("%s: archive accepted (%s), original state %d bytes", kind, trunc(res.String(), 120), len(b.state)), []string{op})
+			run.Violate(kind+":damaged-archive-accepted", fmt.Sprintf("%s: archive accepted (%s), original state %d bytes", kind, trunc(res.String(), 120), len(b.state)), ops)
 		}
 		if !bytes.Equal(res.state, b.state) {
-			run.Violate(kind+":accepted-with-different-state", fmt.Sprintf("%s: accepted but extracted state (%d bytes) differs from the original (%d bytes)", kind, len(res.state), len(b.state)), []string{op})
+			same = false
+			run.Violate(kind+":accepted-with-different-state", fmt.Sprintf("%s: accepted but extracted state (%d bytes) differs from the original (%d bytes)", kind, len(res.state), len(b.state)), ops)
 		}
 		if !bytes.Equal(res.meta, b.cmeta) {
-			run.Violate(kind+":accepted-with-different-metadata", fmt.Sprintf("%s: accepted but metadata %s differs from the original %s", kind, res.meta, b.cmeta), []string{op})
+			same = false
+			run.Violate(kind+":accepted-with-different-metadata", fmt.Sprintf("%s: accepted but metadata %s differs from the original %s", kind, res.meta, b.cmeta), ops)
 		}
-		run.Tag(kind + ":accepted-identical")
+		if same {
+			run.Tag(kind + ":accepted-identical")
+		}
 	} else {
 		run.Tag(kind + ":rejected:" + res.enum)
 	}
@@ -468,8 +536,34 @@ func checkDamaged(run *hx.Run, b *base, kind string, mustReject bool, res result
 
 // ---- every truncation point of the plain tar
 
+// register makes b the model's current base archive (later ops refer to it: trunc, bflip,
+// `@i` member references, `^` oracle reference).
 func (b *base) register(run *hx.Run) {
-	run.Line("base "+encMembers(b.s.ms), fmt.Sprintf("ok n=%d total=%d", len(b.s.ms), len(b.tarB)))
+	run.Line(b.baseOp(), fmt.Sprintf("ok n=%d total=%d", len(b.s.ms), len(b.tarB)))
+}
+
+func (b *base) baseOp() string { return "base " + encMembers(b.s.ms) + " " + oracle(b.s.ms) }
+
+// orc is the oracle token for ms, `^` when it equals the base's.
+func (b *base) orc(ms []member) string {
+	o := oracle(ms)
+	if b != nil && o == b.orcTok {
+		return "^"
+	}
+	return o
+}
+
+// encRel encodes members, referring to identical complete base members as @i.
+func (b *base) encRel(ms []member) string {
+	t := make([]string, len(ms))
+	for i, m := range ms {
+		if b != nil && i < len(b.s.ms) && !m.short && !b.s.ms[i].short && m.name == b.s.ms[i].name && bytes.Equal(m.data, b.s.ms[i].data) {
+			t[i] = fmt.Sprintf("@%d", i)
+		} else {
+			t[i] = hx.EncS(m.name) + ";" + hx.EncB(m.data) + ";" + hx.EncBool(m.short)
+		}
+	}
+	return hx.EncList(t)
 }
 
 func runTruncations(run *hx.Run, b *base, step int) {
@@ -479,14 +573,14 @@ func runTruncations(run *hx.Run, b *base, step int) {
 		mut := b.tarB[:cut]
 		sv := scan(plain{bytes.NewReader(mut)})
 		res := implRead(mut)
-		op := fmt.Sprintf("trunc %d %s", cut, oracle(sv.ms))
+		op := fmt.Sprintf("trunc %d %s", cut, b.orc(sv.ms))
 		run.Line(op, fmt.Sprintf("view=%s %s", viewStr(sv), res.String()))
 		kind := "trunc-in-" + "end"
 		if cut < len(b.tarB) {
 			kind = "trunc-in-" + regionOf(b.regs, cut).kind
 		}
-		checkDamaged(run, b, kind, cut < lde, res, op)
-		run.Case(fmt.Sprintf("%s/%s", b.tag, op), cut < len(b.tarB))
+		checkDamaged(run, b, kind, cut < lde, res, b.baseOp(), op)
+		run.Case(fmt.Sprintf("%s/trunc %d", b.tag, cut), cut < len(b.tarB))
 	}
 }
 
@@ -514,55 +608,97 @@ func flipVals(r *hx.RNG, old byte, all bool) []byte {
 	}
 }
 
+// flipKind classifies a position by the observed layout: the monitor's verdict table.
+func flipKind(b *base, reg region) (kind string, must bool) {
+	kind = "flip-" + reg.kind
+	if reg.kind == "data" {
+		name := b.s.ms[reg.idx].name
+		kind = "flip-data-" + name
+		must = name == "meta.json" || name == "state.bin"
+	}
+	return
+}
+
+// flipOne evaluates one changed byte on the real read: monitor always, model line when corr.
+func flipOne(b *base, mut []byte, pos int, v byte, reg region, corr bool, out sink, baseView string) (op, got string) {
+	res := implRead(mut)
+	kind, must := flipKind(b, reg)
+	if corr || res.ok {
+		sv := scan(plain{bytes.NewReader(mut)})
+		op = fmt.Sprintf("bflip %d %d %s", pos, v, b.orc(sv.ms))
+		got = fmt.Sprintf("view=%s %s", viewStr(sv), res.String())
+		if reg.kind == "hdr" && pos-reg.start >= 148 && pos-reg.start < 156 {
+			// checksum field: still parses to the same number (archive unchanged for
+			// the reader) or not (header rejected) — both are legal, nothing else is.
+			op = fmt.Sprintf("bflip %d %d ^", pos, v)
+			pre := stream{ms: b.s.ms[:reg.idx], end: "err"}
+			a, z := fmt.Sprintf("view=%s %s", baseView, b.res.String()), fmt.Sprintf("view=%s err tar", viewStr(pre))
+			if got == a || got == z {
+				out.Tag("flip-hdr:chksum-field:" + map[bool]string{true: "same-value", false: "rejected"}[got == a])
+				got = fmt.Sprintf("chk view=%s|%s %s|err tar", baseView, viewStr(pre), b.res.String())
+			}
+		}
+	}
+	checkDamaged(out, b, kind, must, res, b.baseOp(), op)
+	return
+}
+
 // runFlips changes every `step`-th position. corrVals values per position go through the model
-// (bflip line); all values go through the monitors.
+// (bflip line, main goroutine, deterministic order); all other values go through the monitors
+// only, on worker goroutines whose findings are merged in worker order.
 func runFlips(run *hx.Run, r *hx.RNG, b *base, step int, all bool, corrVals int) {
 	b.register(run)
 	baseView := viewStr(b.s)
+	const workers = 8
+	type job struct {
+		pos int
+		v   byte
+	}
+	jobs := make([][]job, workers)
 	mut := append([]byte(nil), b.tarB...)
 	for pos := 0; pos < len(b.tarB); pos += step {
 		reg := regionOf(b.regs, pos)
 		old := b.tarB[pos]
-		vals := flipVals(r, old, all)
-		// which values are also compared with the model
+		// all 255 replacement values where the value is interpreted (member data: JSON, the
+		// SHA256SUMS scanner, state bytes; the octal header checksum field); elsewhere (rest of
+		// the headers, padding, trailer: any change has the same effect) the 8 single-bit
+		// changes and one random value
+		allHere := all && (reg.kind == "data" || (reg.kind == "hdr" && pos-reg.start >= 148 && pos-reg.start < 156))
+		vals := flipVals(r, old, allHere)
 		corr := map[byte]bool{vals[len(vals)-1]: true}
 		for len(corr) < corrVals && len(corr) < len(vals) {
 			corr[hx.Pick(r, vals)] = true
 		}
 		for _, v := range vals {
-			mut[pos] = v
-			res := implRead(mut)
-			kind := "flip-" + reg.kind
-			must := false
-			if reg.kind == "data" {
-				name := b.s.ms[reg.idx].name
-				kind = "flip-data-" + name
-				must = name == "meta.json" || name == "state.bin"
-			}
-			op := ""
-			if corr[v] || res.ok {
-				sv := scan(plain{bytes.NewReader(mut)})
-				op = fmt.Sprintf("bflip %d %d %s", pos, v, oracle(sv.ms))
-				got := fmt.Sprintf("view=%s %s", viewStr(sv), res.String())
-				if reg.kind == "hdr" && pos-reg.start >= 148 && pos-reg.start < 156 {
-					// checksum field: still parses to the same number (archive unchanged for
-					// the reader) or not (header rejected) — both are legal, nothing else is.
-					op = fmt.Sprintf("bflip %d %d %s", pos, v, oracle(b.s.ms))
-					pre := stream{ms: b.s.ms[:reg.idx], end: "err"}
-					a, z := fmt.Sprintf("view=%s %s", baseView, b.res.String()), fmt.Sprintf("view=%s err tar", viewStr(pre))
-					if got == a || got == z {
-						run.Tag("flip-hdr:chksum-field:" + map[bool]string{true: "same-value", false: "rejected"}[got == a])
-						got = fmt.Sprintf("chk view=%s|%s %s|err tar", baseView, viewStr(pre), b.res.String())
-					}
-				}
-				if corr[v] {
-					run.Line(op, got)
-				}
-			}
-			checkDamaged(run, b, kind, must, res, op)
 			run.Case(fmt.Sprintf("%s/bflip %d %d", b.tag, pos, v), true)
+			if !corr[v] {
+				jobs[pos%workers] = append(jobs[pos%workers], job{pos, v})
+				continue
+			}
+			mut[pos] = v
+			op, got := flipOne(b, mut, pos, v, reg, true, run, baseView)
+			run.Line(op, got)
 		}
 		mut[pos] = old
+	}
+	sinks := make([]*localSink, workers)
+	var wg sync.WaitGroup
+	for w := 0; w < workers; w++ {
+		sinks[w] = &localSink{tags: map[string]int{}}
+		wg.Add(1)
+		go func(w int) {
+			defer wg.Done()
+			m := append([]byte(nil), b.tarB...)
+			for _, j := range jobs[w] {
+				m[j.pos] = j.v
+				flipOne(b, m, j.pos, j.v, regionOf(b.regs, j.pos), false, sinks[w], baseView)
+				m[j.pos] = b.tarB[j.pos]
+			}
+		}(w)
+	}
+	wg.Wait()
+	for _, l := range sinks {
+		l.mergeInto(run)
 	}
 }
 
@@ -937,11 +1073,11 @@ func sameStream(a, b stream) bool {
 
 func emitGz(run *hx.Run, b *base, gz []byte, alsoRead bool) (result, string) {
 	hdrOK, sv, tail := gzScan(gz)
-	ms := encMembers(sv.ms)
-	if b != nil && sameStream(sv, b.s) {
+	ms := b.encRel(sv.ms)
+	if b != nil && len(sv.ms) == len(b.s.ms) && sameStream(stream{ms: sv.ms, end: "eof"}, b.s) {
 		ms = "@"
 	}
-	op := fmt.Sprintf("gz %s %s %s %s %s", hx.EncBool(hdrOK), ms, sv.end, tail, oracle(sv.ms))
+	op := fmt.Sprintf("gz %s %s %s %s %s", hx.EncBool(hdrOK), ms, sv.end, tail, b.orc(sv.ms))
 	res := implGz(run, gz, alsoRead, op)
 	out := res.String()
 	run.Line(op, out)
@@ -951,7 +1087,7 @@ func emitGz(run *hx.Run, b *base, gz []byte, alsoRead bool) (result, string) {
 func runGz(run *hx.Run, r *hx.RNG, b *base, gz []byte, posStep int, truncStep int) {
 	b.register(run) // the gz ops refer to it as @
 	res, op := emitGz(run, b, gz, true)
-	checkDamaged(run, b, "gzip-intact", false, res, op)
+	checkDamaged(run, b, "gzip-intact", false, res, b.baseOp(), op)
 	if !res.ok {
 		run.Violate("gzip:valid-archive-rejected", "Verify/Read rejected an untouched gzip-wrapped archive: "+res.enum, []string{op})
 	}
@@ -959,7 +1095,7 @@ func runGz(run *hx.Run, r *hx.RNG, b *base, gz []byte, posStep int, truncStep in
 	// every truncation point: the gzip trailer is gone, concludeGzipRead must notice
 	for cut := 0; cut < len(gz); cut += truncStep {
 		res, op := emitGz(run, b, gz[:cut], cut%16 == 0)
-		checkDamaged(run, b, "gzip-truncated", true, res, op)
+		checkDamaged(run, b, "gzip-truncated", true, res, b.baseOp(), op)
 		run.Case(fmt.Sprintf("%s/gz-trunc %d", b.tag, cut), true)
 	}
 	// single-byte changes
@@ -975,7 +1111,7 @@ func runGz(run *hx.Run, r *hx.RNG, b *base, gz []byte, posStep int, truncStep in
 			} else if pos >= len(gz)-8 {
 				kind = "gzip-flip-trailer"
 			}
-			checkDamaged(run, b, kind, pos >= len(gz)-8, res, op)
+			checkDamaged(run, b, kind, pos >= len(gz)-8, res, b.baseOp(), op)
 			run.Case(fmt.Sprintf("%s/gz-flip %d %d", b.tag, pos, v), true)
 		}
 		mut[pos] = old
@@ -990,18 +1126,18 @@ func runGz(run *hx.Run, r *hx.RNG, b *base, gz []byte, posStep int, truncStep in
 	}
 	for _, kind := range []string{"gzip-append-garbage", "gzip-append-zero-byte", "gzip-append-empty-member", "gzip-append-second-member", "gzip-append-itself"} {
 		res, op := emitGz(run, b, append(append([]byte(nil), gz...), appendix[kind]...), true)
-		checkDamaged(run, b, kind, false, res, op)
+		checkDamaged(run, b, kind, false, res, b.baseOp(), op)
 		run.Case(b.tag+"/"+kind, true)
 	}
 	// uncompressed bytes after the tar trailer, inside the gzip member
 	for _, extra := range [][]byte{{0}, bytes.Repeat([]byte{0}, 512), []byte("x")} {
 		res, op := emitGz(run, b, gzWrap(append(append([]byte(nil), b.tarB...), extra...)), true)
-		checkDamaged(run, b, "gzip-extra-uncompressed", false, res, op)
+		checkDamaged(run, b, "gzip-extra-uncompressed", false, res, b.baseOp(), op)
 		run.Case(b.tag+"/gzip-extra", true)
 	}
 	// the plain tar handed to Verify (no gzip header)
 	res, op = emitGz(run, b, b.tarB, true)
-	checkDamaged(run, b, "gzip-missing", true, res, op)
+	checkDamaged(run, b, "gzip-missing", true, res, b.baseOp(), op)
 }
 
 // ---------------------------------------------------------------- Restore against a real raft
@@ -1194,6 +1330,11 @@ func main() {
 	os.Setenv("TMPDIR", tmp)
 	defer os.RemoveAll(tmp)
 	thorough := run.Thorough()
+	t0 := time.Now()
+	phase := func(name string) {
+		run.Extra["seconds:"+name] = fmt.Sprintf("%.1f", time.Since(t0).Seconds())
+		t0 = time.Now()
+	}
 
 	// 1. round trips over the size pool and random sizes
 	var bases []*base
@@ -1201,9 +1342,9 @@ func main() {
 		r := run.RNG.Fork(uint64(1000 + i))
 		bases = append(bases, mkBase(run, genMeta(r, n), genState(r, n), fmt.Sprintf("size%d", n)))
 	}
-	for i := 0; i < run.Scale(40, 300); i++ {
+	for i := 0; i < run.Scale(40, 150); i++ {
 		r := run.RNG.Fork(uint64(2000 + i))
-		n := r.Intn(run.Scale(20000, 200000))
+		n := r.Intn(run.Scale(20000, 60000))
 		mkBase(run, genMeta(r, n), genState(r, n), "random-size")
 	}
 	// metadata.Size smaller than the reader: exactly Size bytes are archived
@@ -1212,12 +1353,22 @@ func main() {
 		st := genState(r, 700)
 		md := genMeta(r, 600)
 		mkBase(run, md, st[:600], "size-from-metadata")
+		emitWrite(run, md, st)      // longer reader
+		emitWrite(run, md, st[:599]) // reader one byte short: write must fail
+		emitWrite(run, md, nil)
+		for k := 0; k < run.Scale(30, 300); k++ {
+			rr := run.RNG.Fork(uint64(2500 + k))
+			n := rr.Intn(1500)
+			md := genMeta(rr, n)
+			emitWrite(run, md, genState(rr, n+rr.Intn(3)*rr.Intn(600)-rr.Intn(2)*rr.Intn(n+1)))
+		}
 		alt := scan(bytes.NewReader(mkArchive(md, st))) // a longer reader: exactly Size bytes are archived
 		if len(alt.ms) != 3 || !bytes.Equal(alt.ms[1].data, st[:600]) {
 			run.Violate("write:does-not-copy-exactly-metadata-size", "write archived something else than the first metadata.Size bytes", nil)
 		}
 	}
 
+	phase("1-roundtrip")
 	// 2. every truncation point and every single-byte change of the plain tar
 	exhaustive := map[int]bool{0: true, 1: true, 511: true, 512: true, 513: true}
 	for _, b := range bases {
@@ -1226,27 +1377,30 @@ func main() {
 		switch {
 		case exhaustive[n]:
 			runTruncations(run, b, 1)
-			runFlips(run, r, b, 1, thorough && n <= 1, run.Scale(2, 6))
+			runFlips(run, r, b, 1, thorough && n <= 2, run.Scale(2, 3))
 		case n == 4096:
 			runTruncations(run, b, run.Scale(3, 1))
-			runFlips(run, r, b, run.Scale(5, 1), false, 1)
+			runFlips(run, r, b, run.Scale(5, 2), false, 1)
 		default:
-			runTruncations(run, b, run.Scale(7, 1))
-			runFlips(run, r, b, run.Scale(11, 2), false, 1)
+			runTruncations(run, b, run.Scale(7, 2))
+			runFlips(run, r, b, run.Scale(11, 3), false, 1)
 		}
 	}
 
+	phase("2-bytes")
 	// 3. member-level edits of valid archives
 	for i, b := range bases {
 		runMemberMutations(run, run.RNG.Fork(uint64(4000+i)), b)
 	}
 	runLongLines(run, bases[3])
 
+	phase("3-members")
 	// 4. adversarial archives
 	for i := 0; i < run.Scale(1500, 20000); i++ {
 		runAdversarial(run, run.RNG.Fork(uint64(100000+i)))
 	}
 
+	phase("4-adversarial")
 	// 5. gzip wrapper
 	for i, b := range bases {
 		r := run.RNG.Fork(uint64(5000 + i))
@@ -1260,9 +1414,11 @@ func main() {
 		}
 	}
 
+	phase("5-gzip")
 	// 6. save / restore against a live raft
 	runRestore(run, run.RNG.Fork(6000), run.Scale(6, 40))
 
+	phase("6-restore")
 	run.Extra["bases"] = len(bases)
 	run.Finish()
 }
